@@ -29,7 +29,10 @@ from ..runner import Acc
 
 PROP = "C20"
 LEVEL = "model_checking"
-MOD = "local e = {} function e.f(frame) return 'L' .. (frame.args[1] or '') end return e"
+MOD = ("local e = {} function e.f(frame) return 'L' .. (frame.args[1] or '') end "
+       # page work that reads site data kept in the database (the interwiki map; its table is absent in a store filled by add_page)
+       "function e.iw(frame) local ok, m = pcall(mw.site.interwikiMap) if not ok then return 'iw-error:' .. tostring(m):sub(1, 60) end "
+       "local n = 0 for _ in pairs(m) do n = n + 1 end return 'iw:' .. n end return e")
 
 CONDITIONS = [
     {"name": "plain", "backup": False, "bootstrap": True},
@@ -261,7 +264,7 @@ def body(db, cursor=False):
                 next(gen)                 # a read cursor stays open while the worker goes on
             w.start_page("P")
             r1 = w.expand(w.get_page_body("P", 0) or "MISSING-PAGE")
-            r2 = w.expand("{{t|z}}")
+            r2 = w.expand("{{t|z}}") + " " + w.expand("{{#invoke:m|iw}}")
             ex = w.page_exists("Template:t", 10)
             if gen is not None:
                 list(gen)
